@@ -23,6 +23,9 @@ ENCODED_AS = '<u32 as scale::HasCompact>::Type'
 # a local type of the generated program that is written to the wire AS an array or AS a tuple (encoded_as types
 # that are not type paths); see VALUE_HEADER
 RGB = {"c": "prim", "n": "crate::Rgb", "a": []}
+# a type that reaches the derive through a `$t:ty` fragment of macro_rules! (a None-delimited token group): u8
+MT = {"c": "macrot", "n": "", "a": []}
+IN_MACRO = [False]
 NONPATH_AS = {"[u8; 3]": "bytes", "(u16, u8)": "pair"}
 
 def doc(line):
@@ -38,8 +41,8 @@ def variant(name, shape="unit", fields=(), cindex=None, discr=None, skip=False, 
     return {"name": name, "shape": shape, "fields": list(fields), "cindex": [cindex] if cindex is not None else [],
             "discr": [discr] if discr is not None else [], "skip": skip, "docs": [doc(x) for x in docs]}
 
-def decl(kind, name, shape="named", fields=(), variants=(), tparams=(), lifetimes=(), capture="absent", replace=(), docs=(), mods=(), inst=(), capture_text=None, consts=(), doc_attr=False, combined=False):
-    return {"consts": list(consts), "doc_attr": doc_attr, "combined": combined, "doc_noise": False, "kind": kind, "name": name, "shape": shape, "fields": list(fields), "variants": list(variants),
+def decl(kind, name, shape="named", fields=(), variants=(), tparams=(), lifetimes=(), capture="absent", replace=(), docs=(), mods=(), inst=(), capture_text=None, consts=(), doc_attr=False, combined=False, macro_ty=False):
+    return {"macro_ty": macro_ty, "consts": list(consts), "doc_attr": doc_attr, "combined": combined, "doc_noise": False, "kind": kind, "name": name, "shape": shape, "fields": list(fields), "variants": list(variants),
             "tparams": [{"name": n, "skip": s} for n, s in tparams], "lifetimes": list(lifetimes), "capture": capture,
             "capture_text": capture_text or capture, "replace": [list(r) for r in replace], "docs": [doc(x) for x in docs], "mods": list(mods), "inst": list(inst)}
 
@@ -73,6 +76,8 @@ def from_plan(shape, feats, i, for_codec=True):
         if not for_codec:        # TypeInfo alone does not need the codec impls: any declared type, any described type
             fs.append(field(nm("e2"), ref(vec(U8)) if "lifetime" in F else vec(P("T")) if "generic" in F else tup(U8, BOOL), encoded_as="u64"))
     if "raw_ident" in F and named: fs.append(field("r#type", U8))
+    if "macro_ty" in F:
+        fs.append(field(nm("mt"), MT)); fs.append(field(nm("mv"), vec(MT), docs=([" through a macro"] if "docs" in F else ()))); fs.append(field(nm("mo"), opt(tup(MT, arr(MT, 2)))))
     consts = ["N"] if "const_generic" in F and shape != "struct_unit" else []
     if consts: fs.append(field(nm("cn"), arrc(U16, "N")))
     docs = [" Type doc", "  second line", "third"] if "docs" in F else []
@@ -87,7 +92,7 @@ def from_plan(shape, feats, i, for_codec=True):
         # overlapping search keys (first match wins), the type's own identifier, and a CHAIN: an earlier
         # replacement text that is a later search text must not be substituted again
         replace = [["m1", "m2"], ["m2", "zz"], ["m2", "yy"], [name, "Renamed"]] if mods else [["d%d" % i, name], [name, "Renamed"], ["zzz", "q"]]
-    style = dict(doc_attr="doc_attr_form" in F, combined="combined_attrs" in F)
+    style = dict(doc_attr="doc_attr_form" in F, combined="combined_attrs" in F, macro_ty="macro_ty" in F and shape != "struct_unit")
     noise = "docs" in F and "rename" in F
     if shape == "struct_unit":
         return decl("struct", name, "unit", (), (), tparams=[], lifetimes=[], capture=capture, capture_text=ctext, replace=replace, docs=docs, mods=mods, inst=[], **style)
@@ -157,6 +162,12 @@ def rand_decl(r, i, for_codec=True):
     d["doc_attr"] = r.random() < 0.2
     d["combined"] = r.random() < 0.3
     d["doc_noise"] = r.random() < 0.3
+    if r.random() < 0.12 and d["shape"] != "unit" and (d["kind"] == "struct" or d["variants"]):
+        named = d["shape"] == "named"
+        tgt = d["fields"] if d["kind"] == "struct" else None
+        if tgt is not None:
+            tgt.append(field("mt" if named else None, MT)); tgt.append(field("mv" if named else None, T2("result", vec(MT), MT)))
+            d["macro_ty"] = True
     return d
 
 def rand_decl0(r, i, for_codec=True):
@@ -214,6 +225,7 @@ def mentions(t, c):
 def src(t, d, subst=None, static=False, selfpath=None):
     c = t["c"]; a = [src(x, d, subst, static, selfpath) for x in t["a"]]
     if c == "prim": return t["n"]
+    if c == "macrot": return "$t" if IN_MACRO[0] else "u8"
     if c == "string": return "String"
     if c == "str": return "str"
     if c == "param": return subst[t["n"]] if subst else t["n"]
@@ -260,6 +272,14 @@ def body_src(shape, fields, d, ind, pub, with_codec):
     return " {\n" + inner + ind + "}" if shape == "named" else "(\n" + inner + ind + ")"
 
 def decl_src(d, with_codec):
+    if not d.get("macro_ty"): return decl_src0(d, with_codec)
+    IN_MACRO[0] = True
+    try: body = decl_src0(d, with_codec)
+    finally: IN_MACRO[0] = False
+    # the whole declaration is stamped out by a macro; the member types mentioning $t arrive as token groups
+    return "macro_rules! mk_%s { ($t:ty) => {\n%s} }\nmk_%s!(u8);\n" % (d["name"], body, d["name"])
+
+def decl_src0(d, with_codec):
     s = docs_src(d["docs"], "", d.get("doc_attr"))
     s += "#[derive(TypeInfo%s)]\n" % (", Encode" if with_codec else "")
     attrs = []
